@@ -635,7 +635,10 @@ func (p *InlineParser) parseBackslash(state *inlineState, start int) (end int) {
 		})
 		return end
 	}
-	end = start + 2
+	// Not an escape: the backslash is literal text.
+	// What follows is tokenized on its own
+	// (it can be the first byte of a multi-byte character).
+	end = start + 1
 	state.addToRoot(&Inline{
 		kind: TextKind,
 		span: Span{
